@@ -3,7 +3,7 @@ import ast
 
 import python_minifier
 from harness import grammar as G
-from vf.stubs import ALL_OFF
+from vf.stubs import ALL_OFF, untraced
 
 N_SLOT = G.N_SLOT
 N_CHILD = G.N_CHILD
@@ -39,21 +39,6 @@ def option_vector(i):
 
 
 N_OV = 3 + 2 * len(OPTION_NAMES)
-
-
-def untraced(fn, *args):
-    """Runs fn on realised (concrete) arguments with CrossHair's tracer switched off: the structure parameters are
-    forked on (one path per value), everything after that is concrete, so interpreting it opcode by opcode only costs time."""
-    try:
-        from crosshair.tracers import NoTracing, is_tracing
-        from crosshair.core import realize
-    except ImportError:
-        return fn(*args)
-    if not is_tracing():
-        return fn(*args)
-    real = [realize(a) for a in args]
-    with NoTracing():
-        return fn(*real)
 
 
 def bits_index(*bits):
